@@ -170,9 +170,9 @@ class Check(object):
     def violation(self, key, what, replay, found=True):
         """Record a violation; matched against known_findings by key."""
         for f in self.findings:
-            if f.get('property') == self.prop and f.get('status') == 'open' and f.get('key') == key:
-                if key not in [k for k, _ in self.known_hit]:
-                    self.known_hit.append((key, f.get('what', what)))
+            if f.get('property') == self.prop and f.get('status') == 'open' and (f.get('key') == key or key in f.get('also_keys', [])):
+                if f.get('key') not in [k for k, _ in self.known_hit]:
+                    self.known_hit.append((f.get('key'), f.get('what', what)))
                 return False
         if any(v['key'] == key for v in self.violations):
             return True
